@@ -118,8 +118,8 @@ def dynamic_mechanism(unit, r, inputs):
         zt = [df.zero_trip(unit, lp, s, n) for s, n in fail]
         ok = [df.zero_trip(unit, lp, s, n)
               for s, n in [tuple(x) for x in r.get("passing_inputs", [])]]
-        if zt and all(z is True for z in zt) and ok and \
-                any(z is False for z in ok):
+        if zt and all(z is True for z in zt) and \
+                all(z is False for z in ok):
             # fails exactly when the loop does not execute at all
             return ("hoist.zero_trip" if t == "HoistTrans"
                     else "induction.zero_trip_post_value")
